@@ -12,6 +12,6 @@ C09_OK(e) == LET rows == RowsDef(e.ch, e.s, CiOf(e), e.ml) IN
              /\ e.rows = rows
              /\ (e.hastext => e.text = TextOf(rows, e.nl))
 TInit == l = 1
-TNext == l <= Len(Trace) /\ PrintT(<<"J", l, Trace[l].id, IF C09_OK(Trace[l]) THEN {} ELSE {"C09"}>>) /\ l' = l + 1
+TNext == l <= Len(Trace) /\ PrintT(ToString(<<"J", l, Trace[l].id, IF C09_OK(Trace[l]) THEN {} ELSE {"C09"}>>)) /\ l' = l + 1
 Accepted == TLCGet("stats").diameter - 1 = Len(Trace)
 =============================================================================
